@@ -648,7 +648,7 @@ fn op_msg(ctx: &mut Ctx, m: &Item, via: u64, mode: u64, k: usize, parsed: bool) 
         SerOut::Ok { bytes, pos } => (bytes, pos),
         _ => return,
     };
-    fault_free_message_oracles(ctx, &what, &src, &bytes, pos, &reference);
+    fault_free_message_oracles(ctx, &what, &src, &bytes, pos, &reference, is_sup);
 }
 
 fn kind_index(k: &str) -> u32 {
@@ -656,7 +656,11 @@ fn kind_index(k: &str) -> u32 {
     K.iter().position(|x| *x == k).unwrap_or(9) as u32
 }
 
-fn fault_free_message_oracles(ctx: &mut Ctx, what: &str, src: &Item, bytes: &[u8], pos: u64, reference: &[u8]) {
+fn fault_free_message_oracles(ctx: &mut Ctx, what: &str, src: &Item, bytes: &[u8], pos: u64, reference: &[u8], listed: bool) {
+    // `listed`: one of the kinds the statement names. A kind outside that list that answers Ok (a
+    // serializer added later) is held to "parses back to the same value" only: its wire form may
+    // hold parts no value field carries (heartbeat padding), so neither the reference bytes nor
+    // full consumption nor a byte-identical re-serialization can be demanded of it
     ctx.count("oracle/message_roundtrips", 1);
     let _ = pos;
     // SSLv3 has no extension block: an absent one may be emitted as `00 00` (today) or not at all
@@ -668,7 +672,7 @@ fn fault_free_message_oracles(ctx: &mut Ctx, what: &str, src: &Item, bytes: &[u8
         alt[3] = l as u8;
         alt == bytes
     };
-    if bytes != reference && !sslv3_bare {
+    if listed && bytes != reference && !sslv3_bare {
         let i = bytes.iter().zip(reference.iter()).position(|(a, b)| a != b).unwrap_or(bytes.len().min(reference.len()));
         ctx.violate(Prop::C09, format!("ser/bytes-differ/{}", src.kind), || {
             format!("{}: serializer emitted {} bytes, the reference encoder {} bytes; first difference at offset {} (got {:02x?}, expected {:02x?})", what, bytes.len(), reference.len(), i, bytes.get(i), reference.get(i))
@@ -696,7 +700,7 @@ fn fault_free_message_oracles(ctx: &mut Ctx, what: &str, src: &Item, bytes: &[u8
     });
     match parsed {
         Some(Ok((rem, item, again))) => {
-            if rem != 0 {
+            if rem != 0 && listed {
                 ctx.violate(Prop::C09, "ser/not-consumed", || format!("{}: parsing the {} produced bytes left {} bytes unconsumed", what, bytes.len(), rem));
             }
             let want = readback(src);
@@ -709,6 +713,7 @@ fn fault_free_message_oracles(ctx: &mut Ctx, what: &str, src: &Item, bytes: &[u8
                 ctx.violate(Prop::C09, format!("ser/roundtrip-value/{}", src.kind), || format!("{}: {}", what, val::diff(&want, &item)));
             }
             match again {
+                _ if !listed => {}
                 Some(b) if b == bytes => {}
                 Some(b) => ctx.violate(Prop::C09, "ser/reserialize", || format!("{}: re-serializing the parsed value gives {} bytes, the first serialization {} bytes (or contents differ)", what, b.len(), bytes.len())),
                 None => ctx.violate(Prop::C09, "ser/reserialize", || format!("{}: re-serializing the parsed value failed", what)),
@@ -792,7 +797,7 @@ fn op_rec(ctx: &mut Ctx, scn: &Scenario, op: &Item, mode: u64, k: usize) {
     };
     let _ = pos;
     let has_sslv3_bare = items.iter().any(|m| m.kind == "server_hello" && m.u("ver") == 0x0300 && m.ob("ext").is_none());
-    if bytes != reference && !has_sslv3_bare {
+    if all_sup && bytes != reference && !has_sslv3_bare {
         let i = bytes.iter().zip(reference.iter()).position(|(a, b)| a != b).unwrap_or(bytes.len().min(reference.len()));
         ctx.violate(Prop::C09, "ser/bytes-differ/record", || format!("{}: emitted {} bytes, reference {} bytes; first difference at offset {} (got {:02x?}, expected {:02x?})", what, bytes.len(), reference.len(), i, bytes.get(i), reference.get(i)));
     }
@@ -817,10 +822,10 @@ fn op_rec(ctx: &mut Ctx, scn: &Scenario, op: &Item, mode: u64, k: usize) {
                         val::canon(&alt) == *g
                     })
                 });
-            if (t, v) != (ctype, ver) || (l as usize != payload.len() && !has_sslv3_bare) || l as usize != bytes.len().saturating_sub(5) || !msgs_ok {
+            if (t, v) != (ctype, ver) || (l as usize != payload.len() && !has_sslv3_bare && all_sup) || l as usize != bytes.len().saturating_sub(5) || !msgs_ok {
                 ctx.violate(Prop::C09, "ser/roundtrip-value/record", || format!("{}: parsed back as type {} version {:#06x} len {} with {} msgs; sent type {} version {:#06x} len {} with {} msgs (or message values differ)", what, t, v, l, got.len(), ctype, ver, payload.len(), want.len()));
             }
-            if again.as_deref() != Some(&bytes[..]) {
+            if all_sup && again.as_deref() != Some(&bytes[..]) {
                 ctx.violate(Prop::C09, "ser/reserialize", || format!("{}: re-serializing the parsed record does not reproduce the same bytes", what));
             }
         }
